@@ -149,27 +149,33 @@ func (in *Inst) Body() {
 		return
 	}
 	rh, rctx := ex.DispatchOperation(ctx, oc)
+	// Payloads are HELD (as a batching transport does) and only read after the last one
+	// has been produced: a payload whose bytes are reused for a later one shows up here.
+	var held []*graphql.Response
 	for {
 		resp := rh(rctx)
 		if resp == nil {
 			break
 		}
-		r := Resp{Data: string(resp.Data), HasNext: resp.HasNext, Label: resp.Label, Path: resp.Path.String()}
-		for _, e := range resp.Errors {
-			r.Errors = append(r.Errors, ErrKey{Path: e.Path.String(), Kind: classify(e.Message)})
-			r.Msgs = append(r.Msgs, e.Path.String()+": "+e.Message)
-		}
-		in.Resp = append(in.Resp, r)
+		held = append(held, resp)
 		if in.Doc != nil && in.Doc.Operations[0].Operation == ast.Subscription {
 			continue // one response per event until the source ends
 		}
 		if resp.HasNext == nil {
 			// single-payload operation: one more call must return nil
 			if extra := rh(rctx); extra != nil {
-				in.Resp = append(in.Resp, Resp{Data: "EXTRA:" + string(extra.Data)})
+				held = append(held, &graphql.Response{Data: append([]byte("EXTRA:"), extra.Data...)})
 			}
 			break
 		}
+	}
+	for _, resp := range held {
+		r := Resp{Data: string(resp.Data), HasNext: resp.HasNext, Label: resp.Label, Path: resp.Path.String()}
+		for _, e := range resp.Errors {
+			r.Errors = append(r.Errors, ErrKey{Path: e.Path.String(), Kind: classify(e.Message)})
+			r.Msgs = append(r.Msgs, e.Path.String()+": "+e.Message)
+		}
+		in.Resp = append(in.Resp, r)
 	}
 	in.Done = true
 	if in.cancel != nil {
@@ -276,6 +282,7 @@ var quirkList = []struct {
 	{"D12-spread-visited-before-skip-include", Quirks{SpreadVisitedBeforeDirective: true}},
 	{"D16-no-merge-across-unrelated-type-conditions", Quirks{NoMergeAcrossUnrelatedConditions: true}},
 	{"D17-typed-nil-at-nonnull-abstract-position-no-error", Quirks{TypedNilNoError: true}},
+	{"scalar-list-null-element-error-path-lacks-index", Quirks{ScalarElemErrorAtList: true}},
 }
 
 // CheckSemantics is the C01/C04/C06 oracle for single-payload operations.
